@@ -10,9 +10,11 @@
 package c17
 
 import (
+	"crypto/sha256"
 	"encoding/hex"
 	"encoding/json"
 	"errors"
+	"flag"
 	"fmt"
 	"os"
 	"sort"
@@ -52,7 +54,10 @@ const (
 	opImportOverwrite = "importOverwrite" // ImportKeyRings with a delegate that decides "overwrite"
 	opReadPublic      = "readPublic"      // GetClientIDEncryptionPublicKey (storage pairs)
 	opClaim           = "claim"           // back-end level: Lock, Put(tmp), RenameNX(tmp, slot), Unlock
+	opGenRetry        = "genRetry"        // key-ring level: OpenKeyRingRW, AddKey and SetCurrent on ONE ring object, each retried up to 3 times after an error (symmetric kinds)
 )
+
+const retryAttempts = 3
 
 // Script is the operation list of one thread.
 type Script struct {
@@ -70,7 +75,7 @@ type Case struct {
 
 func mutating(kind string) bool {
 	switch kind {
-	case kshist.OpGen, kshist.OpDestroyCurrent, kshist.OpDestroyRotated, opImport, opImportOverwrite:
+	case kshist.OpGen, kshist.OpDestroyCurrent, kshist.OpDestroyRotated, opImport, opImportOverwrite, opGenRetry:
 		return true
 	}
 	return false
@@ -148,6 +153,9 @@ func mkOp(t *rapid.T, kind string, k kshist.K, tid int) kshist.Op {
 	if (kind == kshist.OpDestroyCurrent || kind == kshist.OpDestroyRotated) && !kshist.Destroyable(k.Kind) {
 		kind = kshist.OpGen
 	}
+	if kind == opGenRetry && kshist.IsPair(k.Kind) {
+		kind = kshist.OpGen
+	}
 	op := kshist.Op{Kind: kind, Key: k.Kind, ID: k.ID}
 	switch kind {
 	case kshist.OpDestroyRotated:
@@ -160,7 +168,7 @@ func mkOp(t *rapid.T, kind string, k kshist.K, tid int) kshist.Op {
 	return op
 }
 
-var writerOps = []wk{{kshist.OpGen, 40}, {kshist.OpDestroyCurrent, 14}, {kshist.OpDestroyRotated, 10}, {opImport, 10}, {opImportOverwrite, 4},
+var writerOps = []wk{{kshist.OpGen, 34}, {opGenRetry, 8}, {kshist.OpDestroyCurrent, 14}, {kshist.OpDestroyRotated, 10}, {opImport, 10}, {opImportOverwrite, 4},
 	{kshist.OpReadCurrent, 6}, {kshist.OpReadAll, 6}, {opClaim, 5}, {kshist.OpList, 2}}
 var readerOps = []wk{{kshist.OpReadCurrent, 40}, {kshist.OpReadAll, 40}, {opReadPublic, 8}, {kshist.OpList, 12}}
 var segLens = []wk{{"1", 4}, {"2", 4}, {"3", 3}, {"4", 2}, {"5", 2}, {"6", 1}, {"8", 1}, {"12", 1}, {"99", 2}}
@@ -229,6 +237,14 @@ type OpRes struct {
 	Paths    []string
 	Start    int // world state index at invocation
 	End      int // world state index at response
+	Attempts []Attempt
+}
+
+// Attempt is one key-ring API call of a genRetry operation.
+type Attempt struct {
+	API      string // OpenKeyRingRW | AddKey | SetCurrent
+	Err      string
+	From, To int // the back-end calls it made: Sched.Steps[From:To]
 }
 
 // Run is everything one execution of a case produced.
@@ -325,6 +341,8 @@ func execOp(fx kshist.Fixture, v *view, op kshist.Op, opIdx int, exports map[str
 		res.Paths, err = ks.ListKeyRings()
 	case opClaim:
 		err = claim(v, op.ID, opIdx)
+	case opGenRetry:
+		err = genRetry(ks, v, op, opIdx, &res)
 	default:
 		err = fmt.Errorf("c17: unknown operation %q", op.Kind)
 	}
@@ -333,6 +351,46 @@ func execOp(fx kshist.Fixture, v *view, op kshist.Op, opIdx int, exports map[str
 		res.NotFound = notFound(err)
 	}
 	return res
+}
+
+// genRetry generates a symmetric key the way a careful user of the key-ring API does: one ring
+// object, AddKey then SetCurrent, each call retried after an error (a concurrent modification makes
+// the optimistic checks fail; the failed transaction must be gone from the ring object afterwards).
+// The key bytes are a function of the case (thread, operation), not random.
+func genRetry(ks *kv2.ServerKeyStore, v *view, op kshist.Op, opIdx int, res *OpRes) error {
+	call := func(api string, f func() error) error {
+		from := len(v.s.Steps)
+		err := f()
+		a := Attempt{API: api, From: from, To: len(v.s.Steps)}
+		if err != nil {
+			a.Err = err.Error()
+		}
+		res.Attempts = append(res.Attempts, a)
+		return err
+	}
+	var ring v2api.MutableKeyRing
+	if err := call("OpenKeyRingRW", func() (e error) { ring, e = ks.OpenKeyRingRW(opRing(op)); return }); err != nil {
+		return err
+	}
+	sum := sha256.Sum256([]byte(fmt.Sprintf("c17 genRetry key of thread %d operation %d", v.tid, opIdx)))
+	desc := v2api.KeyDescription{ValidSince: time.Unix(1600000000, 0), ValidUntil: time.Unix(1900000000, 0),
+		Data: []v2api.KeyData{{Format: v2api.ThemisSymmetricKeyFormat, SymmetricKey: sum[:]}}}
+	seq := 0
+	var err error
+	for i := 0; i < retryAttempts; i++ {
+		if err = call("AddKey", func() (e error) { seq, e = ring.AddKey(desc); return }); err == nil {
+			break
+		}
+	}
+	if err != nil {
+		return err
+	}
+	for i := 0; i < retryAttempts; i++ {
+		if err = call("SetCurrent", func() error { return ring.SetCurrent(seq) }); err == nil {
+			break
+		}
+	}
+	return err
 }
 
 func claimSlot(slot string) string { return "claims/" + slot }
@@ -581,7 +639,9 @@ func (r *Run) describe() string {
 	fmt.Fprintf(&sb, " executed schedule: %s; commits:", r.threadSeq())
 	for _, cm := range r.World.commits {
 		if cm.File != "" {
-			fmt.Fprintf(&sb, " #%d t%d.%d file %s", cm.State, cm.Tid, cm.Op, cm.File)
+			if !strings.HasSuffix(cm.File, newSuffix) {
+				fmt.Fprintf(&sb, " #%d t%d.%d file %s", cm.State, cm.Tid, cm.Op, cm.File)
+			}
 			continue
 		}
 		fmt.Fprintf(&sb, " #%d t%d.%d %s %s %s->%s", cm.State, cm.Tid, cm.Op, cm.Ring, cm.Kind, cm.Before, cm.After)
@@ -793,6 +853,11 @@ func Judge(r *Run) hx.Vs {
 	imported := map[string]bool{}     // rings that a successful import (re)wrote
 	lastSetCur := map[string]int{}    // ring -> seq set by the last successful set-current / import in commit order
 	lastSetCurState := map[string]int{}
+	setCur := func(ring string, seq, state int) {
+		if state > lastSetCurState[ring] {
+			lastSetCur[ring], lastSetCurState[ring] = seq, state
+		}
+	}
 	for i, th := range c.Threads {
 		for j, op := range th.Ops {
 			res := r.Res[i][j]
@@ -803,7 +868,7 @@ func Judge(r *Run) hx.Vs {
 			var eff []Commit // effective commits: everything but create-empty / none
 			for _, cm := range byOp[opKey{i, j}] {
 				if cm.File != "" {
-					if op.Kind != opClaim {
+					if op.Kind != opClaim && !strings.HasSuffix(cm.File, newSuffix) { // the staging file of a ring write is no effect of its own
 						vs.Add("foreign-file-write:"+op.Kind+be, "t%d %s wrote the plain file %s%s", i, op, cm.File, ctx())
 					}
 					continue
@@ -830,6 +895,16 @@ func Judge(r *Run) hx.Vs {
 				}
 				switch cm.Kind {
 				case "none":
+					// an import that writes what is already there is still that import's write
+					if (op.Kind == opImport || op.Kind == opImportOverwrite) && cm.After.Exists && sameRing(cm.After, r.Donor[target]) {
+						eff = append(eff, cm)
+					}
+					// a set-current that finds its sequence number current already (an overwriting
+					// import brought a key with that number) is still this operation's set-current
+					if (op.Kind == kshist.OpGen || op.Kind == opGenRetry) && len(eff) == 1 && eff[0].Kind == "add" && cm.After.Current == eff[0].Seq {
+						cm.Kind, cm.Seq = "setcur", cm.After.Current
+						eff = append(eff, cm)
+					}
 				case "create-empty":
 					if !mutating(op.Kind) && !isPoison(op.Key) {
 						vs.Add("reader-wrote:"+op.Kind+be, "t%d %s created ring %s%s", i, op, cm.Ring, ctx())
@@ -853,10 +928,11 @@ func Judge(r *Run) hx.Vs {
 			}
 			ok := res.Err == ""
 			switch op.Kind {
-			case kshist.OpGen:
+			case kshist.OpGen, opGenRetry:
+				// the effect of a generate: one key appended, then (or in the same commit) made current
 				bad := false
 				for k, cm := range eff {
-					if (k == 0 && cm.Kind != "add") || (k == 1 && (cm.Kind != "setcur" || cm.Seq != eff[0].Seq)) || k > 1 {
+					if (k == 0 && cm.Kind != "add" && cm.Kind != "addcur") || (k == 1 && (eff[0].Kind != "add" || cm.Kind != "setcur" || cm.Seq != eff[0].Seq)) || k > 1 {
 						illegal(cm)
 						bad = true
 					}
@@ -864,20 +940,55 @@ func Judge(r *Run) hx.Vs {
 				if bad {
 					break
 				}
+				complete := (len(eff) == 1 && eff[0].Kind == "addcur") || len(eff) == 2
 				switch {
-				case ok && len(eff) == 2:
+				case ok && complete:
 					okAdds[target] = append(okAdds[target], *eff[0].After.key(eff[0].Seq))
-					lastSetCur[target], lastSetCurState[target] = eff[1].Seq, eff[1].State
+					setCur(target, eff[len(eff)-1].Seq, eff[len(eff)-1].State)
 				case ok:
 					tainted[target] = true
 					vs.Add("success-without-effect:gen"+be, "t%d %s returned success but committed [%s] instead of an added key and a new current key%s", i, op, kinds, ctx())
 				case len(eff) > 0:
 					// the error came after part of the effect was committed
 					strayAdds[target]++
-					if len(eff) == 2 {
-						lastSetCur[target], lastSetCurState[target] = eff[1].Seq, eff[1].State
+					if complete {
+						setCur(target, eff[len(eff)-1].Seq, eff[len(eff)-1].State)
 					}
-					vs.Add("failed-op-left-trace:gen"+be, "t%d %s returned error %q but committed [%s] on %s: key %d stays in the ring%s", i, op, res.Err, kinds, target, eff[0].Seq, ctx())
+					if op.Kind == kshist.OpGen { // at key-ring level (genRetry) the two steps are the caller's own
+						vs.Add("failed-op-left-trace:gen"+be, "t%d %s returned error %q but committed [%s] on %s: key %d stays in the ring%s", i, op, res.Err, kinds, target, eff[0].Seq, ctx())
+					}
+				}
+				// a retried key-ring call may fail only because somebody else changed the ring since
+				// this ring object last read it
+				for a := 1; a < len(res.Attempts); a++ {
+					at := res.Attempts[a]
+					// only the optimistic-concurrency errors: other failures (the key to make current
+					// was replaced by an import, ...) persist without anybody's further doing
+					if at.Err != "concurrent keystore modification" && at.Err != "duplicate key with seqnum in key ring" {
+						continue
+					}
+					pull := func(x Attempt) int {
+						for _, st := range s.Steps[x.From:x.To] {
+							if st.Tid == i && st.Call == cGet && st.Err == "" {
+								return st.State
+							}
+						}
+						return -1
+					}
+					p0, p1 := pull(res.Attempts[a-1]), pull(at)
+					if p0 < 0 || p1 < 0 {
+						continue
+					}
+					interference := false
+					for _, cm := range w.commits {
+						if cm.Ring == target && cm.Tid != i && cm.State > p0 && cm.State <= p1 {
+							interference = true
+						}
+					}
+					if !interference {
+						vs.Add("spurious-conflict:"+at.API+be, "t%d %s: %s on the same ring object failed with %q although no other thread changed %s between this object's previous read (state %d) and this one (state %d): a failed transaction must leave the ring object usable%s", i, op, at.API, at.Err, target, p0, p1, ctx())
+						break
+					}
 				}
 			case kshist.OpDestroyCurrent, kshist.OpDestroyRotated:
 				bad := false
@@ -929,15 +1040,15 @@ func Judge(r *Run) hx.Vs {
 				case ok && len(eff) == 1:
 					cm := eff[0]
 					imported[target] = true
-					lastSetCur[target], lastSetCurState[target] = cm.After.Current, cm.State
+					setCur(target, cm.After.Current, cm.State)
 					if !sameRing(cm.After, donor) {
 						tainted[target] = true
 						vs.Add("import-wrong-content:"+op.Kind+be, "t%d %s committed %s on %s, the imported ring is %s%s", i, op, cm.After, target, donor, ctx())
-					} else if op.Kind == opImport && len(cm.Before.Keys) > 0 {
+					} else if lost := lostKeys(cm.Before, cm.After); op.Kind == opImport && len(lost) > 0 {
 						// without a delegate the import must not touch an existing ring; replacing
 						// keys that were committed before it loses another writer's successful update
 						tainted[target] = true
-						vs.Add("lost-update:import"+be, "t%d %s returned success and replaced %s by %s on %s: the ring had keys %v, an import without overwrite decision must fail with 'already exists' instead%s", i, op, cm.Before, cm.After, target, lostKeys(cm.Before, cm.After), ctx())
+						vs.Add("lost-update:import"+be, "t%d %s returned success and replaced %s by %s on %s: keys %v, committed by other operations before, are gone; an import without an overwrite decision must fail with 'already exists' instead%s", i, op, cm.Before, cm.After, target, lost, ctx())
 					}
 				case ok:
 					// ImportSkip is not used; a successful import always writes
@@ -1136,6 +1247,7 @@ const schedRule = "2-3 writer scripts (1-3 operations from generate/rotate, dest
 func TestSchedules(t *testing.T) {
 	R.Rule("TestSchedules", schedRule)
 	hx.Checks(150, 5000)
+	flag.Set("rapid.shrinktime", "2s") // scripts and schedule are minimised by minimise(); rapid only needs to try shorter draws
 	rapid.Check(t, func(rt *rapid.T) {
 		c := genCase(rt)
 		vs, run := Check(c)
@@ -1145,7 +1257,7 @@ func TestSchedules(t *testing.T) {
 			return
 		}
 		R.Seen("TestSchedules", c, run.Inter, run.Classes...)
-		R.Report(rt, "TestSchedules", c, vs)
+		report(rt, "TestSchedules", c, vs)
 	})
 }
 
